@@ -42,8 +42,15 @@ def parse(log):
 
 def main():
     src = sys.argv[1]
-    for log in sys.argv[2:]:
+    args = sys.argv[2:]
+    tag = ""
+    if args and args[0] == "--tag":
+        tag = args[1]
+        args = args[2:]
+    for log in args:
         for name, b in parse(log).items():
+            if tag:
+                name = f"{b['property']}-{tag}{b['variant']}"
             d = os.path.join(src, b["property"], b["variant"])
             ok = (
                 not b.get("patch_failed")
@@ -66,7 +73,8 @@ def main():
             meta.update(
                 {
                     "property": b["property"],
-                    "origin": "written by an independent sub-agent that was given only the property's text and its own scratch git worktree of /repo (nothing from /verif)",
+                    "origin": "written by an independent sub-agent that was given only the property's text and its own scratch git worktree of /repo (nothing from /verif)"
+                    + ("; second round: the agent was additionally told that generated-input checks had caught all ordinary slips and was asked for changes that only manifest for narrow input classes, rare shapes, specific call sequences" if tag else ""),
                     "needs_to_manifest": notes.strip()[:1500],
                     "confirmed": {
                         "how": "tools/verify_seed.sh: patch applied to a scratch copy of /repo (git apply), repository suite run there, demo.py run with and without the change",
